@@ -4,7 +4,7 @@
    theorems of C01-C04 and C16 about `transform` / `inverse` speak about this code.  Statements only; the
    proofs are in BridgeStages.v.  `rect w E`: numpy arrays are rectangular (every row has w cells). *)
 From Coq Require Import List ZArith Arith Bool.
-From PK Require Import PyList SliceLib Episodes Stage BridgeStages ZInst.
+From PK Require Import PyList SliceLib Episodes Stage BridgeStages BridgeAngle ZInst.
 From PK.Gen Require Import StagesGen.
 Import ListNotations.
 
@@ -64,6 +64,21 @@ Theorem Stages_poly_frame : forall (T : Type) (O : ops T) (ns nu : nat) (powers 
   = gen_poly_transform T (op_t0 O) F (poly_order (poly_fit_of powers (ns, nu))) E.
 Proof. exact leaf_poly_generated. Qed.
 Print Assumptions Stages_poly_frame.
+
+(* AnglePreprocessor (pykoop/util.py): boolean-mask gather / scatter between the input columns and the linear / cos / sin
+   output columns.  [out_lin m], [out_cos m], [out_sin m]: the output masks the fit computes from the input mask m (one
+   linear column where the input is not an angle, a (cos, sin) pair where it is; the harness compares the fitted masks
+   with them on every generated case).  The inverse is stated without unwrapping (with it, np.unwrap is applied to the
+   recovered angles first). *)
+Theorem Stages_angle : forall (T : Type) (O : ops T) (m : list bool) (a b : nat) (X : list (list T))
+    (unwrap0 : list (list T) -> list (list T)),
+  ((forall r, In r X -> length r = length m) -> (a + b)%nat = length (out_lin m) ->
+   gen_angle_transform T (op_t0 O) (op_cos O) (op_sin O) a b m (out_lin m) (out_cos m) (out_sin m) X = map (angle_row O m) X)
+  /\ ((forall r, In r X -> length r = length (out_lin m)) -> (a + b)%nat = length m ->
+      gen_angle_inverse T (op_t0 O) (op_atan2 O) unwrap0 false a b m (out_lin m) (out_cos m) (out_sin m) X
+      = map (angle_inv_row O m) X).
+Proof. intros. split; [apply gen_angle_transform_model | apply gen_angle_inverse_model]. Qed.
+Print Assumptions Stages_angle.
 
 (* non-vacuity: the generated code runs (state delayed twice, input once; then undone) *)
 Example Stages_example :
